@@ -64,12 +64,20 @@ def _not_in(out, names):
     return True
 
 
-def attr_valid(s):
+def attr_valid(s, maxlen=None):
+    """maxlen: a concrete upper bound on len(result) known to the caller (alphanumeric inputs map
+    1:1 plus at most one prefix/suffix character) - only names that short need comparing"""
     from statham.schema.parser import _parse_attribute_name
     from vf.common import RESERVED_PROPERTIES
 
     out = _parse_attribute_name(s)
-    return out.isidentifier() and _not_in(out, keyword.kwlist) and _not_in(out, RESERVED_PROPERTIES)
+    kws, res = keyword.kwlist, RESERVED_PROPERTIES
+    if maxlen is not None:
+        if len(out) > maxlen:
+            return False
+        kws = [k for k in kws if len(k) <= maxlen]
+        res = [k for k in res if len(k) <= maxlen]
+    return out.isidentifier() and _not_in(out, kws) and _not_in(out, res)
 
 
 def attr_source(s):
@@ -141,10 +149,14 @@ def harnesses(ctx) -> List[H]:
     ex_a = ctx.excl("C12-attr-alnum-not-identifier", ALNUM_NOT_IDENT)
     ex_e = ctx.excl("C12-empty-name-source", "len(s) > 0")
     # ---- attribute names: validity
-    hs.append(mk("c12_attr_valid_alnum2", "s: str", ["len(s) <= 2", "all(c.isalnum() or c in '_- ' for c in s)"] + ex_a,
-                 "return attr_valid(s)", timeout=300, group="attr", covers="names of alphanumerics/underscore/hyphen/space (all of Unicode), <= 2 chars"))
+    hs.append(mk("c12_attr_valid_alnum1", "s: str", ["len(s) <= 1", "all(c.isalnum() or c in '_- ' for c in s)"] + ex_a,
+                 "return attr_valid(s, 5)", timeout=900, tier=T, expect="unknown", group="attr", covers="one alphanumeric/underscore/hyphen/space character (all of Unicode)"))
+    hs.append(mk("c12_attr_valid_alnum1_ctx", "s: str", ["len(s) == 1", "s.isalnum() or s in '_- '"] + ex_a,
+                 "return attr_valid('x' + s + 'y', 4)", timeout=600, tier=T, group="attr", covers="one alphanumeric/underscore/hyphen/space character between letters"))
+    hs.append(mk("c12_attr_valid_alnum2", "s: str", ["len(s) == 2", "all(c.isalnum() or c in '_- ' for c in s)"] + ex_a,
+                 "return attr_valid(s, 4)", timeout=1200, tier=T, group="attr", covers="names of alphanumerics/underscore/hyphen/space (all of Unicode), 2 chars"))
     hs.append(mk("c12_attr_valid_alnum3", "s: str", ["len(s) == 3", "all(c.isalnum() or c in '_- ' for c in s)"] + ex_a,
-                 "return attr_valid(s)", timeout=1200, tier=T, group="attr", covers="same, exactly 3 chars"))
+                 "return attr_valid(s, 5)", timeout=1200, tier=T, group="attr", expect="unknown", covers="same, exactly 3 chars"))
     hs.append(mk("c12_attr_valid_ascii1", "s: str", ["len(s) == 1", "ord(s[0]) < 128"], "return attr_valid(s)", timeout=300, group="attr",
                  covers="every single ASCII character (symbols are enumerated through unicodedata.name realisation)"))
     hs.append(mk("c12_attr_valid_wrapped", "s: str", ["len(s) == 1", "ord(s[0]) < 128"],
@@ -169,8 +181,13 @@ def harnesses(ctx) -> List[H]:
         dom1 += [f"all(c not in {SEPARATORS} and ord(c) >= 32 and ord(c) != 127 for c in s1 + s2)"]
     hs.append(mk("c12_attr_injective_ascii1", "s1: str, s2: str", dom1, "return attr_distinct(s1, s2)", timeout=1500, group="siblings", tier=T,
                  covers="two different single ASCII characters never map to the same attribute" + (" (outside the known separator/unnamed collision classes)" if ex_c else "")))
-    hs.append(mk("c12_attr_injective_letters", "s1: str, s2: str", ["1 <= len(s1) <= 2", "1 <= len(s2) <= 2", "s1 != s2", "all(c.isalpha() for c in s1 + s2)"] + [x.replace(" s)", " s1 + s2)") for x in ex_a],
-                 "return attr_distinct(s1, s2)", timeout=400, group="siblings", covers="alphabetic names (all of Unicode, <= 2 chars) stay distinct"))
+    hs.append(mk("c12_attr_injective_letters1", "s1: str, s2: str", ["len(s1) == 1", "len(s2) == 1", "s1 != s2", "all(c.isalpha() for c in s1 + s2)"] + [x.replace(" s)", " s1 + s2)") for x in ex_a],
+                 "return attr_distinct(s1, s2)", timeout=900, tier=T, expect="unknown", group="siblings", covers="single alphabetic characters (all of Unicode) stay distinct"))
+    hs.append(mk("c12_attr_injective_ascii_alnum", "s1: str, s2: str", ["1 <= len(s1) <= 2", "1 <= len(s2) <= 2", "s1 != s2", "all(c.isascii() and c.isalnum() for c in s1 + s2)"],
+                 "return attr_distinct(s1, s2)" if not ex_c else "return attr_distinct(s1, s2) or (s1[:1].isdigit() != s2[:1].isdigit())", timeout=300, group="siblings",
+                 covers="ASCII alphanumeric names up to 2 chars stay distinct"))
+    hs.append(mk("c12_attr_injective_letters2", "s1: str, s2: str", ["1 <= len(s1) <= 2", "1 <= len(s2) <= 2", "s1 != s2", "all(c.isalpha() for c in s1 + s2)"] + [x.replace(" s)", " s1 + s2)") for x in ex_a],
+                 "return attr_distinct(s1, s2)", timeout=1200, tier=T, expect="unknown", group="siblings", covers="alphabetic names (all of Unicode, <= 2 chars) stay distinct"))
     hs.append(mk("c12_attr_injective_reserved", "i: int, s2: str", ["0 <= i < 200", "len(s2) <= 1", "all(c.isalpha() or c == '_' for c in s2)"],
                  "names = sorted(set(RESERVED_PROPERTIES))\nn = names[i % len(names)]\nreturn n + s2 == n or n + s2 == n + '_' or attr_distinct(n, n + s2)" if ex_c else
                  "names = sorted(set(RESERVED_PROPERTIES))\nn = names[i % len(names)]\nreturn n + s2 == n or attr_distinct(n, n + s2)",
@@ -181,8 +198,12 @@ def harnesses(ctx) -> List[H]:
     # ---- titles
     ex_t = ctx.excl("C12-title-no-leading-letter", "any(c.isascii() and c.isalnum() for c in t) and [c for c in t if c.isascii() and c.isalnum()][0].isalpha()")
     ex_u = ctx.excl("C12-title-shadows-used-name", "_title_format(t) not in sorted(used_names())")
-    hs.append(mk("c12_title_valid2", "t: str", ["1 <= len(t) <= 2"] + ex_t + ex_u, "return title_valid(t)", timeout=400, group="title",
-                 covers="class name is a non-empty identifier, no keyword, no imported/used name (titles <= 2 code points)"))
+    hs.append(mk("c12_title_valid1", "t: str", ["len(t) == 1"] + ex_t + ex_u, "return title_valid(t)", timeout=300, group="title",
+                 covers="class name is a non-empty identifier, no keyword, no imported/used name (one arbitrary code point)"))
+    hs.append(mk("c12_title_valid_context", "t: str", ["len(t) == 1", "ord(t[0]) < 128"], "return title_valid('ab' + t + 'cd')", timeout=300, group="title",
+                 covers="every ASCII character inside a longer title"))
+    hs.append(mk("c12_title_valid2", "t: str", ["len(t) == 2"] + ex_t + ex_u, "return title_valid(t)", timeout=1200, group="title", tier=T,
+                 covers="titles of exactly 2 code points"))
     hs.append(mk("c12_title_valid3", "t: str", ["len(t) == 3"] + ex_t + ex_u, "return title_valid(t)", timeout=1500, group="title", tier=T, expect="unknown",
                  covers="titles of exactly 3 code points"))
     hs.append(mk("c12_title_valid_ascii4", "t: str", ["1 <= len(t) <= 4", "all(c in 'aZ1 _-' for c in t)"] + ex_t + ex_u, "return title_valid(t)", timeout=900, group="title", tier=T,
